@@ -154,11 +154,13 @@ def check_phase(dag, pname, method, pipelines, info, envs, split=None):
         names0 |= set(s.get_read_variables()) | set(s.get_written_variables())
     ids0 = [s.id for s in stmts0]
     base = []
+    final_envs = []
     for variant in (0, 1):
         if pname not in envs[variant]:
             info["skip"] = "phase never entered"
             return None
         env = {n: (type(v)(v.v) if hasattr(v, "v") else v) for n, v in envs[variant][pname].items()}
+        final_envs.append(env)
         try:
             base.append(run_tree(ast0, env, honour, prefix))
         except (Inexact, RefError, T.UndefinedRead, T.EvalError, ZeroDivisionError, OverflowError, TypeError,
@@ -166,6 +168,10 @@ def check_phase(dag, pname, method, pipelines, info, envs, split=None):
             info["skip"] = type(e).__name__
             return None
     ser0 = astwalk.serialise(ast0)
+    if split is not None:
+        m = check_guard_carried(seq[k:], node, final_envs, base, pipelines, info)
+        if m is not None:
+            return m
     for pl in pipelines:
         ast = ast0
         try:
@@ -214,6 +220,58 @@ def check_phase(dag, pname, method, pipelines, info, envs, split=None):
     return None
 
 
+def check_guard_carried(stmts, node, final_envs, base, pipelines, info):
+    """'Statements derived from a guarded statement carry its guard': a guarded statement S handed to a
+    pipeline on its own is rewritten into statements that, from a state in which S's guard is false, do
+    nothing at all: no variable (old or new) is set, no function is called, nothing is read that is unset."""
+    import dagrt.codegen.transform as tr
+    from dagrt.codegen.dag_ast import Block
+    from pymbolic.primitives import LogicalNot, Variable
+    guarded = [s_ for s_ in stmts if getattr(s_, "condition", True) is not True][:4]
+    for s_ in guarded:
+        one = Block(node(s_))
+        for variant in (0, 1):
+            if base[variant]["outcome"] != "completed":
+                continue
+            env = {n: (type(v)(v.v) if hasattr(v, "v") else v) for n, v in final_envs[variant].items()}
+            g = s_.condition
+            # force the guard false where it is a builder flag or its negation
+            if isinstance(g, Variable) and g.name in env:
+                env[g.name] = False
+            elif isinstance(g, LogicalNot) and isinstance(g.child, Variable) and g.child.name in env:
+                env[g.child.name] = True
+            w = astwalk.ValueWalker(dict(env))
+            try:
+                if w.cond(g):
+                    continue
+            except Exception:
+                continue
+            info["guard_false_probes"] = info.get("guard_false_probes", 0) + 1
+            before = sched.env_snapshot(env)
+            for pl in pipelines:
+                ast = one
+                try:
+                    for pname_ in PIPELINES[pl]:
+                        ast = getattr(tr, pname_)(ast)
+                except Exception as e:
+                    return "pipeline %s raised %s on statement %s alone: %s" % (pl, type(e).__name__, s_.id, str(e)[:100])
+                e2 = {n: (type(v)(v.v) if hasattr(v, "v") else v) for n, v in env.items()}
+                try:
+                    got = run_tree(ast, e2, True)
+                except Exception as e:
+                    return ("pipeline %s: statements derived from %s are evaluated although its guard is false "
+                            "(%s: %s)" % (pl, s_.id, type(e).__name__, str(e)[:60]))
+                counters = {l[0] for l in (getattr(s_, "loops", None) or [])}    # the loop nodes are the harness's own
+                after = {n: v for n, v in got["env"].items() if n not in counters}
+                if got["calls"] or got["events"] or got["outcome"] != "completed" or after != {
+                        n: v for n, v in before.items() if n not in counters}:
+                    newv = sorted(set(got["env"]) - set(before))
+                    return ("pipeline %s: statements derived from %s do not carry its guard: with the guard false they "
+                            "still run (new/changed variables %s, %d external call(s))"
+                            % (pl, s_.id, newv[:3], sum(got["calls"].values())))
+    return None
+
+
 def check_case(case, pipelines=None):
     method = case["method"]
     info = {}
@@ -239,7 +297,8 @@ def sig_of(msg):
     m = re.search(r"pipeline (\w+)", msg)
     pl = m.group(1) if m else ""
     for key in ("raised", "occur more than once", "is read before", "fails with", "the step ends", "yields",
-                "left unset", "ends as", "external calls differ", "NullASTNode", "unknown node"):
+                "left unset", "ends as", "external calls differ", "NullASTNode", "unknown node", "carry its guard",
+                "although its guard is false", "alone"):
         if key in msg:
             return pl + " " + key
     return msg[:40]
@@ -286,6 +345,8 @@ def shard(ctx, n):
                      sample={"pipeline": pl, "phases": method["phases"]}, key=(method, pl))
         if "skip" in info:
             ctx.count("phases_skipped_" + info["skip"])
+        if info.get("guard_false_probes"):
+            ctx.count("guard_false_probes", info["guard_false_probes"])
         if msg is not None:
             ctx.fail("c07", case, msg, sig=sig_of(msg))
 
